@@ -128,7 +128,7 @@ pub fn generate(seed: u64, n_cases: usize, out: &Path, only: Option<usize>) -> R
                 vec![t.clone()]
             };
             for s in sentences {
-                match fresh_analyse(&dict, mode_of(mode), None, &s) {
+                match crate::harness::catch(|| fresh_analyse(&dict, mode_of(mode), None, &s)).unwrap_or_else(|p| Err(p.msg)) {
                     Err(_) => {
                         fail = true;
                     }
